@@ -26,6 +26,9 @@ import (
 //	c:<store>:<key>:<val>   Get, fail unless the value is <val>
 //	e:<n>:<data>            revertible event "rev" with n extra topics
 //	u:<n>:<data>            unrevertible event "unr" with n extra topics
+//	E:<topics>:<data>       revertible event "rev" with the given caller topics: `.` for none, else hex strings
+//	                        joined by `+` (`-` is the empty topic)
+//	U:<topics>:<data>       unrevertible event "unr" with the given caller topics
 //	b                       revertible event with an invalid name (Add fails)
 //	p / q                   take a store snapshot / restore the latest one taken by this section
 //	x                       fail
@@ -55,11 +58,43 @@ func storeFullPrefix(i int) []byte {
 }
 
 type item struct {
-	kind byte
-	st   int
-	key  []byte
-	val  []byte
-	nt   int
+	kind   byte
+	st     int
+	key    []byte
+	val    []byte
+	nt     int
+	topics [][]byte // caller topics of an E / U item
+}
+
+// parseTopics reads the topic list of an E / U item.
+func parseTopics(s string) ([][]byte, error) {
+	if s == "." {
+		return [][]byte{}, nil
+	}
+	var res [][]byte
+	for _, t := range strings.Split(s, "+") {
+		b, err := unhex(t)
+		if err != nil {
+			return nil, err
+		}
+		res = append(res, b)
+	}
+	if len(res) > 8 {
+		return nil, fmt.Errorf("bad topics %s", s)
+	}
+	return res, nil
+}
+
+// callerTopics are the topics the scripted module passes to Add / AddUnrevertible for an event item.
+func callerTopics(it item) [][]byte {
+	if it.kind == 'E' || it.kind == 'U' {
+		return it.topics
+	}
+	t := make([][]byte, it.nt)
+	for i := range t {
+		t[i] = []byte{byte(i + 1)}
+	}
+	return t
 }
 
 func parseData(s string) ([]byte, error) {
@@ -130,6 +165,15 @@ func parseSection(sec string) ([]item, error) {
 			if it.val, err = parseData(f[2]); err != nil {
 				return nil, err
 			}
+		case len(f) == 3 && (f[0] == "E" || f[0] == "U"):
+			it.kind = f[0][0]
+			if it.topics, err = parseTopics(f[1]); err != nil {
+				return nil, err
+			}
+			it.nt = len(it.topics)
+			if it.val, err = parseData(f[2]); err != nil {
+				return nil, err
+			}
 		case len(f) == 1 && (f[0] == "b" || f[0] == "p" || f[0] == "q" || f[0] == "x"):
 			it.kind = f[0][0]
 		default:
@@ -158,15 +202,17 @@ type changeCtx interface {
 	RestoreSnapshot(id int) error
 }
 
-func topics(n int) []codec.Hex {
-	t := make([]codec.Hex, n)
+// topicsArg builds the topics argument of Add / AddUnrevertible (every topic a guarded private copy).
+func topicsArg(g *argGuard, it item) []codec.Hex {
+	ct := callerTopics(it)
+	t := make([]codec.Hex, len(ct), len(ct)+4)
 	for i := range t {
-		t[i] = codec.Hex{byte(i + 1)}
+		t[i] = g.give(fmt.Sprintf("event topic %d", i), ct[i])
 	}
 	return t
 }
 
-func runSection(ctx changeCtx, sec string) error {
+func runSection(g *argGuard, ctx changeCtx, sec string) error {
 	items, err := parseSection(sec)
 	if err != nil {
 		panic(err) // harness error, not a scripted one
@@ -175,11 +221,11 @@ func runSection(ctx changeCtx, sec string) error {
 	for _, it := range items {
 		switch it.kind {
 		case 's':
-			ctx.GetStore(storeTable[it.st][0], storeTable[it.st][1]).Set(it.key, it.val)
+			ctx.GetStore(storeTable[it.st][0], storeTable[it.st][1]).Set(g.give("Set key", it.key), g.give("Set value", it.val))
 		case 'd':
-			ctx.GetStore(storeTable[it.st][0], storeTable[it.st][1]).Del(it.key)
+			ctx.GetStore(storeTable[it.st][0], storeTable[it.st][1]).Del(g.give("Del key", it.key))
 		case 'g':
-			v, ok := ctx.GetStore(storeTable[it.st][0], storeTable[it.st][1]).Get(it.key)
+			v, ok := ctx.GetStore(storeTable[it.st][0], storeTable[it.st][1]).Get(g.give("Get key", it.key))
 			name := "read"
 			if !ok {
 				name = "miss"
@@ -188,16 +234,16 @@ func runSection(ctx changeCtx, sec string) error {
 				return err
 			}
 		case 'c':
-			v, ok := ctx.GetStore(storeTable[it.st][0], storeTable[it.st][1]).Get(it.key)
+			v, ok := ctx.GetStore(storeTable[it.st][0], storeTable[it.st][1]).Get(g.give("Get key", it.key))
 			if !ok || string(v) != string(it.val) {
 				return errScript
 			}
-		case 'e':
-			if err := ctx.EventQueue().Add(modName, "rev", it.val, topics(it.nt)); err != nil {
+		case 'e', 'E':
+			if err := ctx.EventQueue().Add(modName, "rev", g.give("event data", it.val), topicsArg(g, it)); err != nil {
 				return err
 			}
-		case 'u':
-			if err := ctx.EventQueue().AddUnrevertible(modName, "unr", it.val, topics(it.nt)); err != nil {
+		case 'u', 'U':
+			if err := ctx.EventQueue().AddUnrevertible(modName, "unr", g.give("event data", it.val), topicsArg(g, it)); err != nil {
 				return err
 			}
 		case 'b':
@@ -223,13 +269,14 @@ func runSection(ctx changeCtx, sec string) error {
 
 type scrModule struct {
 	blueprint.Module
+	g *argGuard
 }
 
 func (m *scrModule) Name() string { return modName }
 
 func (m *scrModule) GetCommand(name string) (statemachine.Command, bool) {
 	if name == cmdName {
-		return &runCmd{}, true
+		return &runCmd{g: m.g}, true
 	}
 	return nil, false
 }
@@ -243,11 +290,11 @@ func txSections(params []byte) [4]string {
 }
 
 func (m *scrModule) BeforeCommandExecute(ctx *statemachine.TransactionExecuteContext) error {
-	return runSection(ctx, txSections(ctx.Transaction().Params())[1])
+	return runSection(m.g, ctx, txSections(ctx.Transaction().Params())[1])
 }
 
 func (m *scrModule) AfterCommandExecute(ctx *statemachine.TransactionExecuteContext) error {
-	return runSection(ctx, txSections(ctx.Transaction().Params())[3])
+	return runSection(m.g, ctx, txSections(ctx.Transaction().Params())[3])
 }
 
 func assetSection(assets blockchain.ReadableBlockAssets) string {
@@ -259,14 +306,14 @@ func assetSection(assets blockchain.ReadableBlockAssets) string {
 }
 
 func (m *scrModule) BeforeTransactionsExecute(ctx *statemachine.BeforeTransactionsExecuteContext) error {
-	return runSection(ctx, assetSection(ctx.BlockAssets()))
+	return runSection(m.g, ctx, assetSection(ctx.BlockAssets()))
 }
 
 func (m *scrModule) AfterTransactionsExecute(ctx *statemachine.AfterTransactionsExecuteContext) error {
-	return runSection(ctx, assetSection(ctx.BlockAssets()))
+	return runSection(m.g, ctx, assetSection(ctx.BlockAssets()))
 }
 
-type runCmd struct{}
+type runCmd struct{ g *argGuard }
 
 func (c *runCmd) ID() uint32   { return 0 }
 func (c *runCmd) Name() string { return cmdName }
@@ -292,7 +339,7 @@ func (c *runCmd) Verify(ctx *statemachine.TransactionVerifyContext) statemachine
 }
 
 func (c *runCmd) Execute(ctx *statemachine.TransactionExecuteContext) error {
-	return runSection(ctx, txSections(ctx.Transaction().Params())[2])
+	return runSection(c.g, ctx, txSections(ctx.Transaction().Params())[2])
 }
 
 // nopLogger discards everything.
